@@ -5,7 +5,7 @@ use super::ops::*;
 use super::types::*;
 use super::world::{cov, Pub, World};
 use crate::env::Answer;
-use crate::mc::{Hist, Model, RunOut, Step, Worker};
+use crate::mc::{Hist, Model, RunOut, Step, Violation, Worker};
 use crate::util::{arena_op, drops_clear, PanicClass};
 use bumpalo::Bump;
 
@@ -279,6 +279,13 @@ impl ArenaModel {
             world.v(1, "write_outside_block", "write_outside_block/shared_static".into(), "the crate's shared static empty chunk was overwritten".into());
         }
         out.violations = std::mem::take(&mut world.viol);
+        if matches!(self.profile, Profile::AllocApi | Profile::ApiSweep) {
+            // through the Allocator trait, "does not overlap any other live block" and "deallocate never
+            // affects the others" are part of C12's contract as well as of C01/C02
+            let mirrored: Vec<Violation> = out.violations.iter().filter(|v| (v.prop == 1 && v.clause.starts_with("overlaps")) || (v.prop == 2 && v.clause == "live_block_changed"))
+                .map(|v| Violation { prop: 12, clause: if v.prop == 1 { "block_overlaps_live_block" } else { "other_block_affected" }, key: format!("{}/{}", if v.prop == 1 { "block_overlaps_live_block" } else { "other_block_affected" }, v.key.split('/').skip(1).collect::<Vec<_>>().join("/")), detail: v.detail.clone(), unsafe_mem: v.unsafe_mem }).collect();
+            out.violations.extend(mirrored);
+        }
         (out, world.trace.take().unwrap_or_default())
     }
 
